@@ -978,14 +978,15 @@ def _header_tables(out, facts):
                 ok = rt == T("field", "0", (T("param", 1),))
                 msg = "AsRef<str> must return the stored string; found %s" % M.show(rt)[:80]
             else:
-                cs = v.find_calls(r"core::fmt::Formatter::<'a>::write_fmt$")
-                ok = False
-                txt = ""
-                if len(cs) == 1:
-                    ct = S.demut(N.norm(v.call_term(cs[0][1], cs[0][0])))
-                    fa = fmt_arguments(ct.args[1]) if len(ct.args) > 1 else None
-                    txt = M.show(ct)[:200]
-                    # exactly one placeholder, no literal text, argument = the stored string
-                    ok = fa is not None and fa[0] in ('b"\\xc0\\x00"', b"\xc0\x00") and fa[1] == [T("field", "0", (T("param", 1),))]
-                msg = "Display must print exactly the stored string: %s" % txt
+                # semantic: what the Display impl prints for a marker holding the string "X"
+                from . import absint as A
+                from . import models as MD
+                I = A.Interp(facts, MD.MODELS)
+                st0 = A.State()
+                me = st0.new_cell(A.Struct("crate::core::" + name, None, {"0": A.StrV("X")}))
+                fm = st0.new_cell(A.Sym("formatter"))
+                outs = I.run(b, [A.Ptr(me), A.Ptr(fm)], st0)
+                printed = [MD.displayed(I, o.state, o.state.events) for o in outs if o.kind == "return"]
+                ok = bool(printed) and all(p == ["X"] for p in printed) and not any(o.state.unmodelled for o in outs)
+                msg = "Display must print exactly the stored string; abstract evaluation prints %s" % (printed[:2],)
             _f(out, "C07.R3", bool(ok), b["id"], "%s string of %s" % (what, name.split("::")[-1]), msg, b["line"], file=v.file(), desc="%s %s = %r / field 0" % (name.split("::")[-1], what, lit))
